@@ -599,6 +599,21 @@ class ReloadProfile(Profile):
         self.helpers = list(helpers or [])     # [(name, kwargs)]
         self.helper_budget = helper_budget
 
+    def helper_allowed(self, w, i) -> bool:
+        """spec['helper_when'] = 'live-member' / 'no-live-member': offer a
+        group trigger only while (no) task it names has a live job (keeps a
+        recorded finding inside an entry of its own)."""
+        when = self.spec.get('helper_when')
+        if not when or not w.running:
+            return True
+        name, kw = self.helpers[i]
+        ids = set(kw.get('tasks', ()))
+        live = any(
+            it.identity in ids
+            and it.state('preparing', 'submitted', 'running')
+            for it in w.schd.pool.get_tasks())
+        return live if when == 'live-member' else not live
+
     def make_world(self):
         install_reload_seam()
         w = super().make_world()
@@ -615,7 +630,7 @@ class ReloadProfile(Profile):
         out = []
         if len(w.helper_log) < self.helper_budget and not w.reload_log:
             for i, (name, _kw) in enumerate(self.helpers):
-                if i not in w.helper_log:
+                if i not in w.helper_log and self.helper_allowed(w, i):
                     out.append(('op', 'helper', i))
         if len(w.reload_log) < self.reload_budget:
             for vname in self.defs:
